@@ -15,6 +15,7 @@ MCInit == Init /\ epochs = 0
 
 MUp      == LinkUp /\ epochs' = epochs + 1
 MDown    == UNCHANGED epochs /\ LinkDown
+MDReset  == DomainReset /\ epochs' = epochs + 1
 MLgood   == UNCHANGED epochs /\ \E d \in Numbers : PartnerLgood((nextAck + d) % 8)
 MLcrd    == UNCHANGED epochs /\ \E d \in Numbers : PartnerLcrd((letter + d) % NBuf)
 MLbad    == UNCHANGED epochs /\ PartnerLbad
@@ -30,7 +31,7 @@ MHpEnd   == UNCHANGED epochs /\
 MRecov   == UNCHANGED epochs /\ Recov
 MQuiet   == UNCHANGED epochs /\ Quiet
 
-MCNext == MUp \/ MDown \/ MLgood \/ MLcrd \/ MLbad \/ MLrty \/ MAccept \/ MRetry \/ MHpStart \/ MHpEnd
+MCNext == MUp \/ MDown \/ MDReset \/ MLgood \/ MLcrd \/ MLbad \/ MLrty \/ MAccept \/ MRetry \/ MHpStart \/ MHpEnd
           \/ MRecov \/ MQuiet
 
 MCSpec == MCInit /\ [][MCNext]_mvars
